@@ -120,6 +120,8 @@ pub struct UnwindContext<'a> {
     fde: FrameDescriptionEntry<EndianArcSlice, usize>,
     debugee: &'a Debugee,
     cfa: RelocatedAddress,
+    /// The return address rule is `undefined`: this is the outermost frame.
+    outermost: bool,
 }
 
 impl<'a> UnwindContext<'a> {
@@ -170,6 +172,10 @@ impl<'a> UnwindContext<'a> {
             Err(e) => return Err(e.into()),
         };
         let cfa = dwarf.evaluate_cfa(debugee, &registers_snap, row, ecx)?;
+        let ra_register = fde.cie().return_address_register();
+        let outermost = row
+            .registers()
+            .any(|(reg, rule)| *reg == ra_register && matches!(rule, RegisterRule::Undefined));
 
         let mut lazy_evaluator = None;
         let evaluator_init_fn = || -> Result<ExpressionEvaluator, Error> {
@@ -239,6 +245,7 @@ impl<'a> UnwindContext<'a> {
             debugee,
             fde,
             cfa,
+            outermost,
         }))
     }
 
@@ -255,6 +262,10 @@ impl<'a> UnwindContext<'a> {
     }
 
     fn return_address(&self) -> Option<RelocatedAddress> {
+        if self.outermost {
+            // no caller to unwind into
+            return None;
+        }
         let register = self.fde.cie().return_address_register();
         self.registers
             .value(register)
@@ -310,8 +321,9 @@ impl<'a> DwarfUnwinder<'a> {
         )?;
 
         let mut bt = vec![FrameSpan::new(self.debugee, ecx.location())?];
-        let mut visited_ips = HashSet::new();
-        visited_ips.insert(frame_0_location.pc);
+        // a frame is identified by its return address and CFA: recursion repeats
+        // the former, only a cyclic unwind repeats both
+        let mut visited_frames = HashSet::new();
         let Some(mut ucx) = mb_ucx else {
             return Ok(bt);
         };
@@ -326,7 +338,7 @@ impl<'a> DwarfUnwinder<'a> {
                 break;
             }
 
-            if !visited_ips.insert(return_addr) {
+            if !visited_frames.insert((return_addr, ucx.cfa)) {
                 break;
             }
 
